@@ -43,6 +43,22 @@ Theorem C15_codec_holders_disjoint : forall w t w', wf w -> create_codec w t = O
 Proof. exact create_codec_disjoint. Qed.
 Print Assumptions C15_codec_holders_disjoint.
 
+(* a constructed codec is complete: every dataclass position of the shape type, and transitively of the fields of the
+   compiled classes, is bound to a holder of THIS codec that owns the generated method (strict or late binding) *)
+Theorem C15_codec_complete : forall w t w', create_codec w t = Ok w' ->
+  exists r, w_regs w' = (w_regs w ++ [r])%list /\
+            (forall c, In c (ty_classes t) -> owns r c) /\ closed_reg (w_env w) r.
+Proof. exact create_codec_complete. Qed.
+Print Assumptions C15_codec_complete.
+
+(* decoders: the same frame and completeness *)
+Theorem C15_decoder_creation_frame_complete : forall w t w', create_decoder w t = Ok w' ->
+  w_env w' = w_env w /\ w_next w <= w_next w' /\
+  exists r, w_regs w' = (w_regs w ++ [r])%list /\ Forall (fun i => w_next w <= i < w_next w') (ids r) /\
+            (forall c, In c (ty_classes t) -> owns r c) /\ closed_reg (w_env w) r.
+Proof. exact create_decoder_frame_complete. Qed.
+Print Assumptions C15_decoder_creation_frame_complete.
+
 (* histories in which codec creation really compiles (and may fail): the observed calls are those of the initial class
    table, codecs never come to share a holder, existing registries stay *)
 Theorem C15_frame_history_holders : forall w ops,
